@@ -178,3 +178,20 @@ prop("C20", "example tools: file encryption matches the library and round-trips"
       (TL, "tool_ecb64_spec"), (TL, "tool_ecb64_roundtrip"), (TL, "tool_ecb64_invalid"),
       (TL, "tool_tweak128_spec"), (TL, "tool_tweak128_roundtrip"), (TL, "tool_tweak128_invalid"),
       (TL, "tool_tweak64_spec"), (TL, "tool_tweak64_roundtrip"), (TL, "tool_tweak64_invalid"), (TL, "io_chunks_concat")])
+
+# kernel bridge: the model's leaf steps are the kernel specification steps that the regenerated C kernels are proved equal to
+KB = "KernelBridge.v"
+KBI = ["IR", "KernelSpecs", "KernelSpecs2", "KernelHom", "KernelHom2", "KernelBridge"]
+HEADER["C01"] = (HEADER["C01"][0], HEADER["C01"][1] + KBI)
+PLAN["C01"] += [(KB, "m128_encrypt_by_kernels"), (KB, "m128_decrypt_by_kernels"), (KB, "m64_encrypt_by_kernels"), (KB, "m64_decrypt_by_kernels"),
+                (KB, "bridge128_set_tk1_iteration"), (KB, "bridge128_tk2_iteration"), (KB, "bridge128_tk3_iteration"),
+                (KB, "bridge64_set_tk1_iteration"), (KB, "bridge64_tk2_iteration"), (KB, "bridge64_tk3_iteration")]
+HEADER["C02"] = (HEADER["C02"][0], HEADER["C02"][1] + KBI)
+PLAN["C02"] += [(KB, "mantis_crypt_by_kernels"), (KB, "mantis_crypt_tweaked_by_kernels"), (KB, "mantis_fwd_by_kernels"), (KB, "mantis_bwd_by_kernels")]
+HEADER["C04"] = (HEADER["C04"][0], HEADER["C04"][1] + KBI)
+PLAN["C04"] += [(KB, "bridge128_xor_tk1_iteration"), (KB, "bridge64_xor_tk1_iteration")]
+K3 = "KernelHom3.v"
+HEADER["C07"] = (HEADER["C07"][0], HEADER["C07"][1] + ["IR", "KernelSpecs", "KernelSpecs3", "KernelHom", "KernelHom3"])
+PLAN["C07"] += [(K3, "kv128_round_lane"), (K3, "kv128_round_inv_lane"), (K3, "kv128_round_blocks"), (K3, "kv128_round_inv_blocks")]
+HEADER["C06"] = (HEADER["C06"][0], HEADER["C06"][1] + ["IR", "KernelSpecs", "KernelSpecs3", "KernelHom", "KernelHom3"])
+PLAN["C06"] += [(K3, "kv128_round_lane"), (K3, "kv128_round_inv_lane")]
